@@ -129,6 +129,15 @@ P["C04"]["thorough"]["l2_labels"]="no key lock remains|no build in flight|auto:|
 fo("C05","With SyncRead enabled (and no injected faults) no builder invocation for a key starts after a build for that key has succeeded, under every schedule. The failure-suppression half is decided sequentially (verifH_C05_*): after a failed build the cached error is served without invoking the builder while t2-t1 is inside the failure TTL window, the builder is invoked again after it, and always with FailedUpdateTTL=-1.",
    "SyncRead: no build starts", seq=["verifH_C05_Failover:int","verifH_C05_FailoverOf:int"])
 
+P["C16"]=dict(level="model_checking",
+ explanation="Data races are decided on the unfused automata: every access to shared state is its own event (no reduction), two threads perform one public operation each on a shared ShardedMap, SyncMap or ShardedMapOf[int] holding one entry (Read, Write, Write of another key, Delete, ExpireAll, DeleteAll, Len, Walk with a callback reading Key/Value/ExpireAt, a cleanup cycle); each pair is its own composition. Race predicate (DRF-SC): some schedule makes two conflicting accesses of different threads (same location, at least one write, not both sync/atomic or sync.Map operations; a Go map is one location) adjacent in the global order, i.e. unordered by any synchronisation - decided by the solver over the clock/read-from encoding. Also: no unlock of an unlocked mutex, no deadlock. Findings are named by the functions containing the two accesses; each is confirmed natively with go test -race on the two-operation program.",
+ bounds="pairs of operations (quick: {Read,Write,Delete,Walk} x {ExpireAll,DeleteAll,Write other,cleanup,Len} = 20 pairs per backend; thorough: all 81 ordered pairs per backend); one stored entry; EvictMostExpired",
+ outside="programs of more than two operations; LRU/LFU counter updates (field C) against Dump; InvalidationIndex / Invalidator / Failover under the race predicate (their event exploration with unfused blocks exceeded the path bound: InvalidationIndex 200000 paths); Dump/Restore (gob stub)",
+ assumptions=["sync.Map and sync/atomic operations are atomic and never racy","sequential consistency for race-free executions (Go memory model DRF-SC)"],
+ technique="event automata from go/ssa without fusion + SMT race predicate over a symbolic schedule (clock/read-from encoding); native go test -race replay of each finding",
+ quick=dict(harnesses=[], l2=["verifL_Race_ShardedMap:l2","verifL_Race_SyncMap:l2","verifL_Race_ShardedMapOf:l2"], l2_jobs=3, l2_par=16, l2_timeout=120),
+ thorough=dict(harnesses=[], l2=["verifL_Race_ShardedMap_all:l2","verifL_Race_SyncMap_all:l2","verifL_Race_ShardedMapOf_all:l2"], l2_jobs=3, l2_par=16, l2_timeout=300))
+
 json.dump({"common_assumptions":common,"properties":P},open('/verif/checks.json','w'),indent=1)
 print("checks.json:",sorted(P))
 
